@@ -204,6 +204,63 @@ theorem gltf_panic_only_if (s : Scene) (hr : Representable s = true) (h : writeS
   · rename_i hp
     exact addModelsT_panic s hr s.models {} (fun _ h => h) hp
 
+theorem mem_zip_of_mem_left {α β} : ∀ {l : List α} {r : List β} {a : α}, l.length = r.length → a ∈ l → ∃ b, (a, b) ∈ l.zip r
+  | [], _, _, _, h => by cases h
+  | _ :: _, [], _, hl, _ => by simp at hl
+  | x :: l, y :: r, a, hl, h => by
+    simp only [List.mem_cons] at h
+    rcases h with rfl | h
+    · exact ⟨y, by simp⟩
+    · obtain ⟨b, hb⟩ := mem_zip_of_mem_left (l := l) (r := r) (by simpa using hl) h
+      exact ⟨b, by simp [hb]⟩
+
+/-- NIL TEXTURE LITERALS ARE NEVER WRITTEN.  If a model that would produce a node (`visible`) has a material whose normal or
+    occlusion texture is a literal with a nil embedded pointer, no file is written — whatever the order of the models, also
+    when an equal-looking material was tracked before.  (By `gltf_panic_only_if` / the model: the writer panics in
+    `AddTexture(nil)`, or an earlier model / the alphaCutoff check returns an error first.) -/
+theorem gltf_nil_literal_rejected (s : Scene) (hs : SceneWFT s) (md : Model) (hmd : md ∈ s.visible)
+    (hnil : NilTexLiteral s md) : ∀ w, writeSceneT s ≠ .ok w := by
+  intro w hT
+  have h := ((writeSceneT_ok_iff s w).mp hT).1
+  have hd := gltf_dedup_ok s w hs.1 hs.2 h
+  have hlen := zip_length (scene_zip_carries s w hs.1 h)
+  obtain ⟨n, hn⟩ := mem_zip_of_mem_left (r := w.nodes.take s.visible.length) hlen hmd
+  obtain ⟨k, pm, hk, hpm, hlit⟩ := hnil
+  unfold dedupOK at hd
+  simp only [Bool.and_eq_true] at hd
+  have h1 := List.all_eq_true.mp hd.1.1.1.1 (md, n) hn
+  have hmat : matOf s md = some pm := by simp [matOf, hk, hpm]
+  simp only [hk, hmat] at h1
+  split at h1
+  · rename_i pm' gm hpm' hgm
+    injection hpm' with hpm'; subst hpm'
+    unfold matCarried at h1
+    simp only [Bool.and_eq_true] at h1
+    have hn' := h1.1.1.2
+    have ho' := h1.1.2
+    have hnone : ∀ id, s.texHeap.length ≤ id → s.texHeap[id]? = none := fun id hid => List.getElem?_eq_none_iff.mpr hid
+    rcases hlit with ⟨id, sc, e, hid⟩ | ⟨id, sc, e, hid⟩
+    · rw [e] at hn'
+      cases hg : gm.normalTex with
+      | none => rw [hg] at hn'; simp [scaledCarried] at hn'
+      | some p => rw [hg] at hn'; simp [scaledCarried, optCarried, hnone id hid] at hn'
+    · rw [e] at ho'
+      cases hg : gm.occlusionTex with
+      | none => rw [hg] at ho'; simp [scaledCarried] at ho'
+      | some p => rw [hg] at ho'; simp [scaledCarried, optCarried, hnone id hid] at ho'
+  · cases h1
+
+/-- non-vacuity of `gltf_nil_literal_rejected`: the `PolyformNormal{}` scene satisfies its hypotheses -/
+example : SceneWFT nilNormalScene ∧ (∃ md ∈ nilNormalScene.visible, NilTexLiteral nilNormalScene md) := by
+  have hv : nilNormalScene.visible = nilNormalScene.models := by decide +kernel
+  refine ⟨⟨⟨?_, ?_⟩, ?_⟩, ?_⟩
+  · intro m hm; simp only [nilNormalScene, List.mem_singleton] at hm; subst hm; exact exMesh_wf
+  · intro md hmd; simp only [nilNormalScene, List.mem_singleton] at hmd; subst hmd; intro t ht; cases ht
+  · intro a ha b hb e he
+    simp only [nilNormalScene, List.mem_singleton] at ha; subst ha; simp [nilNormalMat] at he
+  · rw [hv]
+    exact ⟨_, List.mem_singleton.mpr rfl, 0, nilNormalMat, rfl, rfl, Or.inl ⟨0, none, rfl, by simp [nilNormalScene]⟩⟩
+
 /-- non-vacuity: the rich scene of `richScene_ok` and the line scene are representable; the nil-normal scene is, and panics -/
 example : Representable richScene = true ∧ Representable lineScene = true ∧ Representable nilNormalScene = true := by
   refine ⟨?_, ?_, ?_⟩ <;> decide +kernel
